@@ -18,20 +18,20 @@ CONSTANTS Modes,        \* subset of {"rb", "wal"}
 PStates == [rb  |-> <<"idle", "j_created", "j_synced", "page_written">>,
             wal |-> <<"idle", "w_locked", "frame_partial", "frame_commit">>]
 
-Ops == {"DBWrite", "DBTruncate", "DBRemove", "JCreate", "JWrite", "JZeroHeader", "JTruncate", "JRemove",
-        "WCreate", "WHeader", "WFrame", "WTruncate", "WRemove", "WUnlockWrite", "Import"}
+Ops == {"DBWrite", "DBTruncate", "DBRemove", "DBRemoveRace", "JCreate", "JWrite", "JZeroHeader", "JTruncate", "JRemove",
+        "WCreate", "WHeader", "WFrame", "WTruncate", "WRemove", "WUnlockWrite", "Import", "ImportRace"}
 
 VARIABLES mode,      \* journal mode of the database
           ps,        \* pager protocol state of the application's connection
           walc,      \* the WAL holds committed, captured frames that are not checkpointed yet
-          role,      \* "primary" | "demoted" | "replica"
+          role,      \* "primary" | "demoted" | "replica" | "holder" (replica holding the halt lock) | "exholder"
           img, pos, logn,   \* logical image version, position, number of LTX files
           exited,    \* LiteFS stopped itself (Store.Exit)
           last, hist
 vars == <<mode, ps, walc, role, img, pos, logn, exited, last, hist>>
 view == <<mode, ps, walc, role, img, pos, logn, exited>>
 
-Writable == role = "primary"
+Writable == role \in {"primary", "holder"}
 
 Init == /\ mode \in Modes /\ ps = "idle" /\ walc \in {FALSE}
         /\ role \in {"primary", "replica"}
@@ -43,7 +43,7 @@ H(a) == hist' = Append(hist, a)
 
 (* ---- the writable phase: the connection advances through the protocol ---- *)
 Advance ==
-  /\ Writable /\ ~exited
+  /\ role = "primary" /\ ~exited        \* (the holder's own transactions are C13's subject)
   /\ LET seq == PStates[mode]
          i == CHOOSE k \in 1..Len(seq) : seq[k] = ps
      IN IF i < Len(seq)
@@ -66,6 +66,24 @@ LoseAuthority ==
   /\ last' = [op |-> "demote", res |-> "none"]
   /\ H("demote")
 
+\* a replica is granted the database's halt lock: it is writable like the primary ...
+AcquireHalt ==
+  /\ role = "replica" /\ ~exited /\ ps = "idle"
+  /\ role' = "holder"
+  /\ UNCHANGED <<mode, ps, walc, img, pos, logn, exited>>
+  /\ last' = [op |-> "acquire", res |-> "none"]
+  /\ H("acquire")
+
+\* ... until the lock ends on the primary (released for it, expired) and the next transaction of the
+\* primary arrives on the stream: processLTXStreamFrame clears DB.remoteHaltLock.  The frame needs the
+\* local write lock, so this happens between the holder's transactions only.
+LoseHalt ==
+  /\ role = "holder" /\ ~exited /\ ps = "idle"
+  /\ role' = "exholder" /\ img' = img + 1 /\ pos' = pos + 1 /\ logn' = logn + 1    \* the primary's transaction, applied
+  /\ UNCHANGED <<mode, ps, walc, exited>>
+  /\ last' = [op |-> "losehalt", res |-> "none"]
+  /\ H("losehalt")
+
 (* ---- LiteFS's reaction to an operation on a node without authority (guard table) ---- *)
 \* "eacces": refused with the read-only permission error; "refused": refused with another error;
 \* "harmless": accepted, changes neither image nor position nor log; "exit": refused by stopping the node;
@@ -74,6 +92,7 @@ React(op) ==
   CASE op = "DBWrite"      -> "eacces"        \* WriteDatabaseAt: !Writeable
     [] op = "DBTruncate"   -> "harmless"      \* TruncateDatabase: only to the committed size (or refused)
     [] op = "DBRemove"     -> "eacces"        \* RootNode.Remove: !IsPrimary
+    [] op = "DBRemoveRace" -> "refused"       \* DB.Drop that began with authority and lost it before its final step: rolled back
     [] op = "JCreate"      -> "eacces"        \* CreateJournal: !Writeable
     [] op = "JWrite"       -> "eacces"        \* WriteJournalAt: !Writeable
     [] op = "JZeroHeader"  -> "eacces"        \* WriteJournalAt (PERSIST commit)
@@ -86,10 +105,13 @@ React(op) ==
     [] op = "WRemove"      -> IF walc /\ ~GuardWALTrunc THEN "reverts" ELSE IF walc THEN "refused" ELSE "harmless"
     [] op = "WUnlockWrite" -> IF ps = "frame_commit" THEN "exit" ELSE "harmless"   \* CommitWAL: lost write access => fatal
     [] op = "Import"       -> "refused"       \* DB.Import: !IsPrimary
+    [] op = "ImportRace"   -> "refused"       \* POST /import that was waiting for the write lock (open transaction) when authority went
 
 Applicable(op) ==
   CASE op \in {"JWrite", "JZeroHeader", "JTruncate", "JRemove"} -> mode = "rb" /\ ps # "idle"
     [] op = "JCreate" -> mode = "rb"
+    [] op = "DBRemoveRace" -> role = "demoted" /\ ps = "idle"
+    [] op = "ImportRace" -> role = "demoted" /\ ps # "idle"
     [] op \in {"WHeader", "WFrame", "WTruncate", "WRemove", "WCreate"} -> mode = "wal"
     [] op = "WUnlockWrite" -> mode = "wal" /\ ps # "idle"
     [] OTHER -> TRUE
@@ -104,7 +126,7 @@ Attempt(op) ==
      /\ UNCHANGED <<mode, ps, role, pos, logn>>
      /\ H(op)
 
-Next == \/ Advance \/ LoseAuthority
+Next == \/ Advance \/ LoseAuthority \/ AcquireHalt \/ LoseHalt
         \/ \E op \in Ops : /\ Attempt(op)
                             /\ (Emit => PrintT("EDGE " \o ToJson([mode |-> mode, ps |-> ps, walc |-> walc, role |-> role,
                                                                   path |-> hist, op |-> op, res |-> last'.res])))
